@@ -41,36 +41,56 @@ const uidB = "1 _UID AA13561DDB204985BFFDEEBF82A5226C5B2E"
 type scenario struct {
 	Name, Left, Right string
 	What              string
+	// the compared lists are the documents' individuals without the first LeftSkip / RightSkip ones
+	// (lists that are only a part of their documents)
+	LeftSkip, RightSkip int
+}
+
+// lists of a scenario from freshly decoded documents
+func (sc scenario) lists() (gedcom.IndividualNodes, gedcom.IndividualNodes) {
+	return decode(sc.Left).Individuals()[sc.LeftSkip:], decode(sc.Right).Individuals()[sc.RightSkip:]
 }
 
 var alice = func(p string, x ...string) string { return indi(p, "Alice /Archer/", "3 Mar 1801", "9 Sep 1870", x...) }
-var boris = func(p string, x ...string) string { return indi(p, "Boris /Bellamy/", "17 Jul 1805", "1 Jan 1880", x...) }
-var clara = func(p string, x ...string) string { return indi(p, "Clara /Coombes/", "29 Nov 1830", "2 Feb 1899", x...) }
+var boris = func(p string, x ...string) string {
+	return indi(p, "Boris /Bellamy/", "17 Jul 1805", "1 Jan 1880", x...)
+}
+var clara = func(p string, x ...string) string {
+	return indi(p, "Clara /Coombes/", "29 Nov 1830", "2 Feb 1899", x...)
+}
 
 var scenarios = []scenario{
-	{"S0a", "", "", "both sides empty"},
-	{"S0b", "", alice("I1") + boris("I2"), "left empty"},
-	{"S0c", alice("I1") + boris("I2"), "", "right empty"},
-	{"S1", alice("I1"), alice("I1"), "one pointer job through all four stages"},
-	{"S2", alice("I1") + boris("I2"), alice("I1") + boris("I2"), "two pointer jobs from two workers; sentA/sentB; adjustTotal under the mutex while collectResults polls"},
-	{"S3", alice("I1") + boris("I2"), alice("J1") + boris("J2"), "four matrix jobs shared between workers; arrival order on results; tie-free"},
-	{"S4", alice("I1", uidA) + boris("I2", uidB), boris("J1", uidB) + alice("J2", uidA), "unique-id jobs; lazily built cachedUniqueIDs read by several workers"},
-	{"S5", alice("I1", uidA) + indi("I2", "Alicia /Archer/", "3 Mar 1801", "9 Sep 1870", uidA), alice("J1", uidA), "two left individuals carry the _UID of one right individual"},
-	{"S6", alice("I1") + alice("I2"), alice("J1") + alice("J2"), "identical twins: ties on score"},
-	{"S7", alice("I1", uidA) + boris("I2") + clara("I3"), alice("J1", uidA) + boris("I2") + clara("J3"), "unique-id, pointer and matrix candidates in one run"},
+	{"S0a", "", "", "both sides empty", 0, 0},
+	{"S0b", "", alice("I1") + boris("I2"), "left empty", 0, 0},
+	{"S0c", alice("I1") + boris("I2"), "", "right empty", 0, 0},
+	{"S1", alice("I1"), alice("I1"), "one pointer job through all four stages", 0, 0},
+	{"S2", alice("I1") + boris("I2"), alice("I1") + boris("I2"), "two pointer jobs from two workers; sentA/sentB; adjustTotal under the mutex while collectResults polls", 0, 0},
+	{"S3", alice("I1") + boris("I2"), alice("J1") + boris("J2"), "four matrix jobs shared between workers; arrival order on results; tie-free", 0, 0},
+	{"S4", alice("I1", uidA) + boris("I2", uidB), boris("J1", uidB) + alice("J2", uidA), "unique-id jobs; lazily built cachedUniqueIDs read by several workers", 0, 0},
+	{"S5", alice("I1", uidA) + indi("I2", "Alicia /Archer/", "3 Mar 1801", "9 Sep 1870", uidA), alice("J1", uidA), "two left individuals carry the _UID of one right individual", 0, 0},
+	{"S6", alice("I1") + alice("I2"), alice("J1") + alice("J2"), "identical twins: ties on score", 0, 0},
+	{"S7", alice("I1", uidA) + boris("I2") + clara("I3"), alice("J1", uidA) + boris("I2") + clara("J3"), "unique-id, pointer and matrix candidates in one run", 0, 0},
 	{"S8",
 		alice("I1", "1 FAMS @F1@") + boris("I2", "1 FAMS @F1@") + clara("I3", "1 FAMC @F1@") + "0 @F1@ FAM\n1 HUSB @I2@\n1 WIFE @I1@\n1 CHIL @I3@\n",
 		alice("J1", "1 FAMS @G1@") + boris("J2", "1 FAMS @G1@") + clara("J3", "1 FAMC @G1@") + "0 @G1@ FAM\n1 HUSB @J2@\n1 WIFE @J1@\n1 CHIL @J3@\n",
-		"families on both sides: Document.Families, FamilyNode.Husband/Wife, IndividualNode.Families/Spouses, DateNode caches touched by several workers"},
-	{"S9", alice("I1") + alice("I1"), alice("I1"), "two left individuals with the same pointer: check-then-act on sentB between pointer workers"},
+		"families on both sides: Document.Families, FamilyNode.Husband/Wife, IndividualNode.Families/Spouses, DateNode caches touched by several workers", 0, 0},
+	{"S9", alice("I1") + alice("I1"), alice("I1"), "two left individuals with the same pointer: check-then-act on sentB between pointer workers", 0, 0},
 	{"S10",
 		indi("I1", "Alice /Archer/", "3 Mar 1801", "", uidA) + indi("I2", "Boris /Bellamy/", "17 Jul 1805", "", uidB) + indi("I3", "Clara /Coombes/", "29 Nov 1830", "", "1 _UID CC13561DDB204985BFFDEEBF82A5226C5B2E"),
 		indi("J1", "Xavier /Quill/", "1 Jan 1900", "", uidA) + indi("J2", "Yolanda /Rook/", "2 Feb 1910", "", uidB) + indi("J3", "Zed /Stone/", "3 Mar 1920", "", "1 _UID CC13561DDB204985BFFDEEBF82A5226C5B2E"),
-		"three pairs that match by unique identifier only (names and dates are far apart): every left individual must be visited by the unique-id stage whatever Jobs is"},
+		"three pairs that match by unique identifier only (names and dates are far apart): every left individual must be visited by the unique-id stage whatever Jobs is", 0, 0},
 	{"S11",
 		indi("P1", "Alice /Archer/", "3 Mar 1801", "") + indi("P2", "Boris /Bellamy/", "17 Jul 1805", "") + indi("P3", "Clara /Coombes/", "29 Nov 1830", ""),
 		indi("P1", "Alice /Archer/", "3 Mar 1802", "") + indi("P2", "Boris /Bellamy/", "17 Jul 1806", "") + indi("P3", "Clara /Coombes/", "29 Nov 1831", ""),
-		"three pairs with equal pointers and a one-year date difference: the pointer stage must visit every left individual"},
+		"three pairs with equal pointers and a one-year date difference: the pointer stage must visit every left individual", 0, 0},
+	{"S12",
+		indi("P1", "Alice /Archer/", "3 Mar 1801", "") + indi("P2", "Boris /Bellamy/", "17 Jul 1805", ""),
+		indi("P1", "Alice /Archer/", "3 Mar 1802", "") + indi("Q2", "Boris /Bellamy/", "17 Jul 1806", "") + indi("Q3", "Clara /Coombes/", "29 Nov 1831", ""),
+		"the right list is only a part of its document: the right document's P1 (same pointer as left P1, similar) is NOT in the list and must not be matched", 0, 1},
+	{"S13",
+		indi("X0", "Zed /Quux/", "1 Jan 1700", "") + indi("P1", "Alice /Archer/", "3 Mar 1801", "", uidA) + indi("P2", "Boris /Bellamy/", "17 Jul 1805", ""),
+		indi("P1", "Alice /Archer/", "3 Mar 1802", "", uidA) + indi("P2", "Boris /Bellamy/", "17 Jul 1806", ""),
+		"the left list is only a part of its document (its first individual is left out); pointer and unique-id pairs among the rest", 1, 0},
 }
 
 type config struct {
@@ -207,13 +227,13 @@ func (o observation) key() string {
 // ---------- sequential facts about a scenario (computed with the scheduler inactive) ----------
 
 type facts struct {
-	nL, nR      int
-	uid         [][]bool
-	samePtr     [][]bool
-	forcedWS    [][]float64
-	unforcedWS  [][]float64
-	tieFree     bool
-	ref         observation
+	nL, nR        int
+	uid           [][]bool
+	samePtr       [][]bool
+	forcedWS      [][]float64
+	unforcedWS    [][]float64
+	tieFree       bool
+	ref           observation
 	whyNotTieFree string
 }
 
@@ -221,7 +241,7 @@ func computeFacts(c config) facts {
 	sc := scen(c.Scenario)
 	opt := c.options().SimilarityOptions
 	var f facts
-	L, R := decode(sc.Left).Individuals(), decode(sc.Right).Individuals()
+	L, R := sc.lists()
 	f.nL, f.nR = len(L), len(R)
 	mk := func() [][]float64 {
 		m := make([][]float64, f.nL)
@@ -236,17 +256,21 @@ func computeFacts(c config) facts {
 		f.uid[i], f.samePtr[i] = make([]bool, f.nR), make([]bool, f.nR)
 		for j := range R {
 			// fresh documents for every pair so that lazily filled caches cannot couple the evaluations
-			l, r := decode(sc.Left).Individuals()[i], decode(sc.Right).Individuals()[j]
+			ll, rr := sc.lists()
+			l, r := ll[i], rr[j]
 			f.uid[i][j] = l.UniqueIdentifiers().Intersects(r.UniqueIdentifiers())
 			f.samePtr[i][j] = l.Pointer() == r.Pointer()
 			f.forcedWS[i][j] = l.SurroundingSimilarity(r, opt, true).WeightedSimilarity()
-			l2, r2 := decode(sc.Left).Individuals()[i], decode(sc.Right).Individuals()[j]
+			ll2, rr2 := sc.lists()
+			l2, r2 := ll2[i], rr2[j]
 			f.unforcedWS[i][j] = l2.SurroundingSimilarity(r2, opt, false).WeightedSimilarity()
 		}
 	}
 	// tie-freeness
 	f.tieFree = true
-	certain := func(i, j int) bool { return f.uid[i][j] || (f.samePtr[i][j] && f.forcedWS[i][j] >= opt.PreferPointerAbove) }
+	certain := func(i, j int) bool {
+		return f.uid[i][j] || (f.samePtr[i][j] && f.forcedWS[i][j] >= opt.PreferPointerAbove)
+	}
 	rUsed := make([]int, f.nR)
 	for i := 0; i < f.nL; i++ {
 		n := 0
@@ -292,7 +316,7 @@ func computeFacts(c config) facts {
 	// reference execution: one job, no scheduler
 	rc := c
 	rc.Jobs = 1
-	l, r := decode(sc.Left).Individuals(), decode(sc.Right).Individuals()
+	l, r := sc.lists()
 	f.ref = observe(l.Compare(r, rc.options()), l, r)
 	return f
 }
@@ -363,8 +387,7 @@ func judge(c config, f *facts, out *vsched.Outcome, obs observation, returned bo
 // one execution of the scenario under a schedule
 func execute(c config, devs []vsched.Dev) (*vsched.Outcome, observation, bool) {
 	sc := scen(c.Scenario)
-	ld, rd := decode(sc.Left), decode(sc.Right)
-	L, R := ld.Individuals(), rd.Individuals()
+	L, R := sc.lists()
 	opts := c.options()
 	var res gedcom.IndividualComparisons
 	returned := false
